@@ -66,6 +66,9 @@ Definition run_event (I : instance) (ev : val) : wld -> wld * val :=
   | 8 => fin (fun _ : unit => vlist vnat (subs w)) (env_step o_update I (asN (vnth ev 1)) (asZ (vnth ev 2)) w)
   (* evaluating a dispatching rule on the dispatcher: read-only by contract (the selection itself is C04's) *)
   | 9 => (w, VL [])
+  (* a constructor call whose arguments are rejected (ValidationError) before anything is created or
+     subscribed, e.g. a feature observer asked for a feature type it does not support *)
+  | 10 => (w, VL [VI (exn_code EValidation)])
   | _ => (w, snapshot I w)
   end.
 
